@@ -558,3 +558,48 @@ func VH_nonASCII(a []string) {
 	_, err2 := Satisfies("MIT", []string{text})
 	vAssert(err2 != nil, "non-ascii-spelling-rejected")
 }
+
+// ---------------------------------------------------------------- C05: reference idstrings
+
+// vIDStrings: every string of 1..n bytes over {a, Z, 9, -, .} (the idstring alphabet classes)
+func vIDStrings(n int) []string {
+	alpha := []string{"a", "Z", "9", "-", "."}
+	out := []string{}
+	level := []string{""}
+	for l := 1; l <= n; l++ {
+		next := []string{}
+		for _, p := range level {
+			for _, c := range alpha {
+				next = append(next, p+c)
+			}
+		}
+		out = append(out, next...)
+		level = next
+	}
+	return out
+}
+
+// VH_refShapes [where n]: the grammar's idstring is 1*(ALPHA / DIGIT / "-" / "."), with no
+// rule about where '-' and '.' may stand; every such string is a valid LicenseRef /
+// DocumentRef name, is reported unchanged and matches itself.
+func VH_refShapes(a []string) {
+	tab := vIDStrings(vAtoi(a[1]))
+	k := vConcretize(vPickInt(0, len(tab)-1, "k"))
+	id := tab[k]
+	text := "LicenseRef-" + id
+	if a[0] == "doc" {
+		text = "DocumentRef-" + id + ":LicenseRef-x"
+	}
+	if a[0] == "ctx" {
+		text = "MIT OR LicenseRef-" + id
+	}
+	vNote("text", vShow(text))
+	vAssert(vValid(text), "ref-idstring-accepted")
+	l, err := ExtractLicenses(text)
+	vAssert(err == nil, "ref-idstring-accepted")
+	if err == nil && a[0] != "ctx" {
+		vAssert(len(l) == 1 && l[0] == text, "ref-idstring-accepted")
+	}
+	r, err2 := Satisfies(text, []string{"LicenseRef-" + id, "DocumentRef-" + id + ":LicenseRef-x"})
+	vAssert(err2 == nil && r, "ref-idstring-accepted")
+}
